@@ -24,6 +24,7 @@ EXPLANATION = (
     ' Added after seed round 3: (8) within_double_byte tests exactly the byte ranges of the double-byte encodings, compared as integer intervals (`> 0x80` and `>= 0x81` are the same); (9) calc_trim_text searches absolute columns from start_offs and returns a start offset that comes from a column search on every left-trimming path.'
     " Round 4: only get_char_width consults the wcwidth package (C11.3); (10) RANGE - every ordinal decode_one can return is at most 0x10FFFF (bit-arithmetic upper bounds, tightened by the branch's own comparison); (11) scan-exit twins; (12) a distance bound on the continuation-byte scans leaves room for 4 bytes; (13) PAIRLEN in apply_target_encoding."
     " Round-4 triage: (14) every position move_next_char returns is start + 1, clamped with min(.., end_offs), or the index of a scan bounded by end_offs. Round 5: (15) no memoised (lru_cache) function reads a rebindable module global such as the byte-encoding mode; (16) move_prev_char / move_next_char answer for non-UTF-8 bytes only after the within_double_byte() test."
+    ' Round 6: (17) SIB: bytes the strict UTF-8 codec rejects are measured by walking with decode_one(), as the offset functions do; no width / offset function uses a codec error policy of its own.'
 )
 NOT_DECIDED = "Additivity of widths, offset/column agreement, str-vs-bytes agreement for every code point, the padding flags of trimming, DEC special character mapping values - exhaustive value questions over code points."
 ASSUMPTIONS = ["Canonical codec spellings are taken from the analysing interpreter's codec registry (codecs.lookup(name).name)."]
@@ -598,6 +599,41 @@ def rule_memo_globals(ctx: Ctx) -> RuleResult:
     return rr
 
 
+def rule_one_decoder(ctx: Ctx) -> RuleResult:
+    """The offset functions (calc_text_pos, move_next_char, move_prev_char) walk UTF-8 bytes with the library's own
+    lenient decoder decode_one(): an invalid or cut-off sequence counts one column *per byte*.  The width function has
+    to count the same way, otherwise width and offsets disagree on exactly those bytes.  calc_width() may try the fast
+    strict codec first, but (a) whenever that fails every path to a result walks with decode_one(), and (b) no width /
+    offset function of str_util decodes with a codec error policy of its own ('replace' collapses a cut-off 2-byte
+    prefix into ONE U+FFFD = 1 column where decode_one() gives 2; 'ignore' gives 0)."""
+    p = ctx.p
+    rr = RuleResult("SIB", "C11.17", "UTF-8 bytes that the strict codec rejects are measured with decode_one() like the offset functions walk them - no codec error policy ('replace' / 'ignore') of its own", floor=2)
+    fi = p.func(f"{SU}.calc_width")
+    cfg = cfg_of(fi)
+    handlers = [n for n in cfg.nodes if n.kind == "handler" and n.ast.type is not None and "UnicodeDecodeError" in ast.unparse(n.ast.type)]
+    walkers = nodes_where(cfg, lambda c: isinstance(c, ast.Call) and callee_name(c) == "decode_one")
+    if not handlers:
+        raise AnalysisError("calc_width: the UnicodeDecodeError handler of the strict fast path was not found")
+    # a walk over zero bytes never enters the loop: the loop header stands for the walk
+    loops = [w for w in fi.own_nodes() if isinstance(w, ast.While) and any(isinstance(c, ast.Call) and callee_name(c) == "decode_one" for c in ast.walk(w))]
+    headers = [n for n in cfg.nodes if n.kind == "test" and any(n.stmt is w for w in loops)]
+    for h in handlers:
+        ok = bool(walkers) and cfg.must_pass(h, walkers + headers, ends=[cfg.exit], labels=("n", "T", "F"))
+        rr.inst("calc_width: fallback walks with decode_one", True, {"handler": norm(h.ast, 40), "decode_one_calls": len(walkers), "every_path": ok})
+        if not ok:
+            rr.add(finding("SIB", fi, h.ast, "after the strict decode failed calc_width() can return without walking the bytes with decode_one(): the width of invalid / cut-off UTF-8 is no longer one column per byte as calc_text_pos() and move_next_char() count it, so widths and offsets disagree (calc_width(b'\\xe4\\xb8', 0, 2) != calc_text_pos(.., 99)[1])", construct="calc_width fallback without decode_one"))
+    m = p.modules[SU]
+    for f2 in m.functions:
+        for c in f2.own_nodes():
+            if isinstance(c, ast.Call) and isinstance(c.func, ast.Attribute) and c.func.attr == "decode":
+                pol = c.args[1] if len(c.args) > 1 else next((k.value for k in c.keywords if k.arg == "errors"), None)
+                ident = f"{short(f2)}: {norm(c, 50)}"
+                rr.inst(ident, True, {"decode": ident, "error_policy": ast.unparse(pol) if pol is not None else "strict"})
+                if pol is not None and not (isinstance(pol, ast.Constant) and pol.value == "strict"):
+                    rr.add(finding("SIB", f2, c, f"`{norm(c, 60)}` decodes with the codec error policy {ast.unparse(pol)}: invalid bytes are counted differently from decode_one(), which the offset functions walk with (one column per byte)", construct=f"codec error policy {ast.unparse(pol)} in {f2.name}"))
+    return rr
+
+
 def rule_dbe_consulted(ctx: Ctx) -> RuleResult:
     """In the double-byte encodings the second byte of a character can be an ASCII-range value (Big5 / GBK / UHC trail
     bytes 0x40..0x7E): whether a byte is a character of its own is only known to within_double_byte().  In the
@@ -646,12 +682,15 @@ def run(ctx: Ctx):
         rule_step_in_range(ctx),
         rule_memo_globals(ctx),
         rule_dbe_consulted(ctx),
+        rule_one_decoder(ctx),
     ]
 
 
 _S = "urwid/str_util.py"
 _U = "urwid/util.py"
 MUTANTS = [
+    Mut("calc-width-lenient-codec", "urwid/str_util.py", "calc_width", '.decode("utf-8"))', '.decode("utf-8", "ignore"))', "SIB|str_util.calc_width|codec error policy"),
+    Mut("calc-width-fallback-counts-bytes", "urwid/str_util.py", "calc_width", "        i = start_offs\n        sc = 0\n        while i < end_offs:\n            o, i = decode_one(text, i)\n            w = get_width(o)\n            sc += w\n        return sc\n", "        return end_offs - start_offs\n", "SIB|str_util.calc_width|calc_width fallback without decode_one"),
     Mut("prev-char-ascii-shortcut", _S, "move_prev_char", "    if _byte_encoding == \"utf8\":\n        o = end_offs - 1", "    if text[end_offs - 1] < 0x80:\n        return end_offs - 1\n    if _byte_encoding == \"utf8\":\n        o = end_offs - 1", "PASS|str_util.move_prev_char"),
     Mut("calc-width-memoised-across-encodings", _S, "calc_width", "def calc_width(text: str | bytes, start_offs: int, end_offs: int) -> int:", "@functools.lru_cache(maxsize=1024)\ndef calc_width(text: str | bytes, start_offs: int, end_offs: int) -> int:", "MEMO|str_util.calc_width", also=[("import re\n", "import functools\nimport re\n")]),
     Mut("next-char-double-byte-step-unclamped", _S, "move_next_char", "return min(start_offs + 2, end_offs)", "return start_offs + 2", "BOUND|str_util.move_next_char"),
